@@ -223,7 +223,13 @@ func genDefinition(rg *rng, cfg *genCfg, st genStats, l byte, gmn uint16) *recor
 	for rg.chance(cfg.unknownFld, 1000) && extra < 4 {
 		extra++
 	}
-	for i := 0; i < extra && len(r.Fields) < 200; i++ {
+	if rg.chance(1, 60) {
+		// a wide definition (the format allows 255 fields): more than 128 field definitions on one local type
+		extra = 129 + rg.intn(120) - len(r.Fields)
+		st["wide_definitions"]++
+	}
+	wide := extra > 8
+	for i := 0; i < extra && len(r.Fields) < 250; i++ {
 		var num byte
 		for tries := 0; tries < 40; tries++ {
 			num = byte(rg.intn(256))
@@ -243,9 +249,41 @@ func genDefinition(rg *rng, cfg *genCfg, st genStats, l byte, gmn uint16) *recor
 			if !taken {
 				break
 			}
+			if tries == 39 {
+				num, tries = 0, 40
+				// fall back to the first free number, if any
+				found := false
+				for c := 0; c < 256 && !found; c++ {
+					free := true
+					for _, f := range r.Fields {
+						if int(f.Num) == c {
+							free = false
+						}
+					}
+					if mi != nil {
+						for _, f := range mi.Fields {
+							if int(f.Num) == c {
+								free = false
+							}
+						}
+					}
+					if free {
+						num, found = byte(c), true
+					}
+				}
+				if !found {
+					extra = 0 // no free field number left
+				}
+			}
+		}
+		if extra == 0 {
+			break
 		}
 		bt := allKnownBases[rg.intn(len(allKnownBases))]
 		n := 1 + rg.intn(3)
+		if wide {
+			bt, n = []types.Base{types.BaseUint8, types.BaseEnum, types.BaseSint8, types.BaseUint16}[rg.intn(4)], 1
+		}
 		fd := fieldDefS{Num: num, Btype: byte(bt), Size: byte(bt.Size() * n)}
 		if bt == types.BaseString {
 			fd.Size = byte(rg.intn(16))
@@ -261,7 +299,12 @@ func genDefinition(rg *rng, cfg *genCfg, st genStats, l byte, gmn uint16) *recor
 		r.DevFlg = true
 		nd := rg.intn(4)
 		for i := 0; i < nd; i++ {
-			r.Devs = append(r.Devs, devDefS{Num: byte(rg.intn(256)), Size: byte(rg.intn(9)), Idx: byte(rg.intn(4))})
+			sz := rg.intn(9)
+			if rg.chance(1, 5) {
+				sz = rg.intn(256) // large developer fields: their sizes may add up to more than 255 bytes per record
+				st["large_dev_field"]++
+			}
+			r.Devs = append(r.Devs, devDefS{Num: byte(rg.intn(256)), Size: byte(sz), Idx: byte(rg.intn(4))})
 		}
 		st["dev_defs"]++
 	}
